@@ -539,6 +539,53 @@ func c12Jobs(s *c12Seeds, cases []c12Case, seed int64, quick bool) []c12Job {
 			}
 		}
 	}
+	// (1b) TLC's zstd_frame cases: a crafted frame (with and without a window descriptor) in place of the compressed blob of a
+	// linked-log record and of a transaction's metadata
+	for _, c := range cases {
+		if c.Format != "zstd_frame" {
+			continue
+		}
+		c := c
+		for _, single := range []bool{false, true} {
+			single := single
+			frame := func() []byte {
+				fcs, wd := uint64(1), byte(0)
+				if c.Field == "frameContentSize" {
+					fcs = c12classValue(c.Class, 1, 1)
+				} else {
+					// window descriptor: exponent in the upper five bits, window = 2^(10+exponent) bytes
+					switch c.Class {
+					case "zero", "one", "origm1", "origp1", "size", "sizep1":
+						wd = byte(c12classValue(c.Class, 1, 1)) << 3
+					case "pow31":
+						wd = 21 << 3
+					case "pow32m1":
+						wd = 21<<3 | 7
+					default:
+						wd = 0xff
+					}
+				}
+				f := []byte{0x28, 0xB5, 0x2F, 0xFD}
+				if single {
+					f = append(f, 0xC0|0x20)
+				} else {
+					f = append(f, 0xC0, wd)
+				}
+				f = binary.LittleEndian.AppendUint64(f, fcs)
+				return append(f, 0x09, 0x00, 0x00, 'x') // last block, raw, 1 byte
+			}
+			if single && c.Field == "windowDescriptor" {
+				continue
+			}
+			mut := fmt.Sprintf("zstd_frame.%s=%s single=%v", c.Field, c.Class, single)
+			jobs = append(jobs, c12Job{Parser: "linkedlog", Seed: "linkedlog", Mut: mut, Class: c.Class, Role: c.Role, Expect: c.Expect, gen: func() []byte {
+				fr := frame()
+				rec := binary.AppendUvarint(nil, uint64(len(fr))+9)
+				return append(append(rec, fr...), make([]byte, 9)...)
+			}})
+			jobs = append(jobs, c12Job{Parser: "txmeta", Seed: "crafted-zstd", Mut: mut, Class: c.Class, Role: c.Role, Expect: c.Expect, gen: frame})
+		}
+	}
 	// (2) byte-level mutations per (parser, seed)
 	type ps struct {
 		parser, seed string
